@@ -52,18 +52,4 @@ theorem Command_Parse_eq (lower : Bytes → Bytes) (s : Bytes) :
         simp [h1, h2, h3, hh, Except.mapError, cmdErr, throw, throwThe, MonadExceptOf.throw, bind, Except.bind]
   · simp [h1, Except.mapError, cmdErr, throw, throwThe, MonadExceptOf.throw, bind, Except.bind]
 
-/-- `Command.Covers`, regenerated, is the model's `covers`; in particular `other[len(c)]` never panics -/
-theorem Command_Covers_eq (c o : Bytes) : Gen.Command_Covers c o = pure (Command.covers c o) := by
-  unfold Gen.Command_Covers Command.covers
-  by_cases h : List.isPrefixOf c o = true
-  · have hl := (List.isPrefixOf_iff_prefix.mp h).length_le
-    by_cases h1 : c = [47]
-    · subst h1; simp [h, gor, Command.slash, pure, Except.pure, bind, Except.bind]
-    · by_cases h2 : c.length = o.length
-      · simp [h, h1, h2, gor, len, Command.slash, pure, Except.pure, bind, Except.bind]
-      · have h3 : c.length < o.length := by omega
-        have h4 : ¬ ((c.length : Int) = o.length) := by omega
-        simp [h, h1, h2, h3, h4, gor, len, idx, Command.slash, pure, Except.pure, bind, Except.bind]
-  · simp [h, pure, Except.pure, bind, Except.bind]
-
 end Ucan.Tie
